@@ -263,4 +263,6 @@ var scenarioTable = map[string]func() Scenario{
 	"S-escrow": scEscrow,
 	"S-leased": scLeased,
 	"S-life":   scLife,
+	"S-meter":  scMeter,
+	"S-grid":   scGrid,
 }
